@@ -1,2 +1,2 @@
 (** Everything a generated case file needs *)
-From Cteepbd Require Export Model.Types Model.Balance Model.Components Model.Factors Model.Dump.
+From Cteepbd Require Export Model.Types Model.Balance Model.Components Model.Factors Model.Cte Model.Dump.
